@@ -226,4 +226,63 @@ def cartCentre (labels : Labels) : Labels :=
 /-- contents without placeholder entries (what `GridBlueprint` keeps) -/
 def dataOf (labels : Labels) : Labels := labels.filter (fun p => p.2 != PLACEHOLDER)
 
+/-! ### dispatch: which map class reads / writes a grid blueprint -/
+
+inductive Geom | hex | cartesian | rzt | rz
+  deriving Repr, DecidableEq
+
+/-- `geometry.GeomType.fromStr` on an already lower-cased, stripped string: corners-up collapses to HEX; `none` = ValueError -/
+def geomFromStr (s : String) : Option Geom :=
+  if s == "hex" || s == "hex_corners_up" then some .hex
+  else if s == "cartesian" then some .cartesian
+  else if s == "thetarz" then some .rzt
+  else if s == "rz" then some .rz
+  else none
+
+/-- `asciimaps.asciiMapFromGeomAndDomain(geomType, domain)` called with the geometry STRING of the grid blueprint (as
+`_readGridContentsLattice` and `saveToStream` do) and the domain word of the symmetry (`full`, `third`, `quarter`, …):
+the corners-up special case looks at `str(geomType)`, every other combination at the enumeration (table `MAP_FROM_GEOM`);
+`none` = KeyError / ValueError. -/
+def dispatch (geom : String) (domain : String) : Option Kind :=
+  if geom == "hex_corners_up" && domain == "full" then some .tips
+  else match geomFromStr geom, domain with
+    | some .hex, "third" => some .third
+    | some .hex, "full" => some .full
+    | some .cartesian, "full" => some .cart
+    | some .cartesian, "quarter" => some .cart
+    | _, _ => none
+
+/-- the class `saveToStream` writes with when it is handed the PARSED geometry (the enumeration prints as `hex`):
+what a writer that forgets the geometry string would use — kept to state `dispatch_needs_string`. -/
+def dispatchParsed (geom : String) (domain : String) : Option Kind :=
+  match geomFromStr geom with
+  | some .hex => dispatch "hex" domain
+  | some .cartesian => dispatch "cartesian" domain
+  | _ => none
+
+/-- `saveToStream`: the index shift that undoes the centring of full Cartesian maps, `int(-nx/2), int(-ny/2)` of the
+extent of the contents being written -/
+def cartUncentre (labels : Labels) : Labels :=
+  let sz := gridSize (labels.map (·.1))
+  labels.map (fun p => ((p.1.1 + sz.1 / 2, p.1.2 + sz.2 / 2), p.2))
+
+/-- `saveToStream` (tryMap) for one grid design whose contents lie in the represented domain: the lattice-map token lines,
+or `none` when the map class refuses (the blueprint then falls back to `grid contents`). -/
+def saveLattice (geom domain : String) (labels : Labels) : Option (Kind × List (List String)) :=
+  match dispatch geom domain with
+  | none => none
+  | some k =>
+    let shifted := if k == .cart && domain == "full" then cartUncentre labels else labels
+    match gridContentsToAscii k shifted with
+    | none => none
+    | some m => if printable m then some (k, m.lines) else none
+
+/-- `_readGridContentsLattice`: token lines ↦ grid contents (placeholders skipped, full Cartesian maps centred) -/
+def readLattice (geom domain : String) (lines : List (List String)) : Option Labels :=
+  match dispatch geom domain with
+  | none => none
+  | some k => match readAscii k lines with
+    | none => none
+    | some m => some (if k == .cart && domain == "full" then cartCentre m.labels else dataOf m.labels)
+
 end ArmiVerif.AsciiMap
